@@ -16,8 +16,8 @@ def _all(f):
     return True
 
 
-prop("C03", ["take_range", "sort_take", "limit_clause", "flatten_sort", "sort_infer", "lower_transform", "split_order", "sort_names", "dialect_flags", "group_take"],
-     select={"dialect_flags": lambda n: n.rsplit(".", 1)[1] in ("use_fetch", "limit_for_bare_offset"), "split_order": lambda n: n.split(".", 1)[1] in ("RO1", "RO2", "RO3", "reorder_should_swap.safety", "IC1", "IC2", "IC3") or n.split(".", 1)[1].startswith("SO1.Take.")},
+prop("C03", ["take_range", "sort_take", "limit_clause", "flatten_sort", "sort_infer", "lower_transform", "split_order", "sort_names", "dialect_flags", "group_take", "range_sugar"],
+     select={"range_sugar": lambda n: n.split(".", 1)[1] in ("ER1", "RR1", "RR2", "RR3", "RN1", "RT1", "RF1", "TK1", "TK2", "TK3", "EN1") or n.endswith(".safety"), "dialect_flags": lambda n: n.rsplit(".", 1)[1] in ("use_fetch", "limit_for_bare_offset"), "split_order": lambda n: n.split(".", 1)[1] in ("RO1", "RO2", "RO3", "reorder_should_swap.safety", "IC1", "IC2", "IC3") or n.split(".", 1)[1].startswith("SO1.Take.")},
      not_covered="alias_last_sorting and CidRedirector::redirect_sorts (how the sorting is re-expressed across cid redirects: folds over PQ with HashMap state); the driver loops of the sort inference (its step and the CTE record are under contract), "
                  "ensure_names for sort columns; the recursion of Flattener::fold_expr itself (the arms are proved against its contract)")
 
@@ -56,7 +56,7 @@ for _pid, _why in [
 ]:
     na(_pid, _why)
 
-prop("C02", ["sql_prec", "static_eval", "operator_tpl", "literals", "lex_numbers", "cid_inline", "lex_end_expr", "prql_prec"], select={"prql_prec": lambda n: n.split(".", 1)[1].startswith(("PP1.", "FP1.")) or n.split(".", 1)[1] in ("NPF", "needs_parenthesis.safety"), "literals": lambda n: n.split(".", 1)[1] in ("TL1i", "TL1f", "NE1", "number_expr.safety")},
+prop("C02", ["sql_prec", "static_eval", "operator_tpl", "literals", "lex_numbers", "cid_inline", "lex_end_expr", "prql_prec", "range_sugar"], select={"range_sugar": lambda n: n.split(".", 1)[1].startswith(("EB1.", "EB2.", "EU", "IN", "NB1", "EN1", "NS1", "RR", "RN1")) or n.endswith(".safety"), "prql_prec": lambda n: n.split(".", 1)[1].startswith(("PP1.", "FP1.")) or n.split(".", 1)[1] in ("NPF", "needs_parenthesis.safety"), "literals": lambda n: n.split(".", 1)[1] in ("TL1i", "TL1f", "NE1", "number_expr.safety")},
      not_covered="evaluation inside the database; dialect templates beyond the strengths they declare; sites that build SQL operands "
                  "without translate_operand (process_concat, process_array_in, try_into_between) are not yet under contract")
 claim("C02",
@@ -69,7 +69,7 @@ claim("C02",
       "coalesce of literals (SE1), `case` reduced to its first TRUE branch or null, for any number of branches (SE2, loop invariant), ids and spans kept (SE3). "
       "a negative number literal is emitted as a unary minus on its magnitude, so no atom starts with a sign and `-` applied to it is parenthesized instead of forming `--` (literals TL1i, TL1f, NE1). Table obligations (one per row): for every constructible "
       "(parent operator, child class, side) the real strength/associativity tables never leave an operand bare where SQLite's documented "
-      "grammar would re-associate it (NP2.*). NOT proved: that the database evaluates operators as documented.",
+      "grammar would re-associate it (NP2.*). the operators are expanded to the std functions they are documented to be, with the operand written left of the operator bound to the parameter that stands for it - the position is read from std.prql on every run, so the operand swap of `**` in expand_binary and `let pow = exponent column` must agree (range_sugar EB1.<op>, EB2.<op>, one pair per operator; new_binop, Expr::new, FuncCall::new_simple whole); unary `-` / `!` / `+` / `==name` (EU1-4); `x | in a..b` is x >= a && x <= b, an open bound imposes nothing (IN1-3). NOT proved: that the database evaluates operators as documented.",
       "Oracle = SQLite's documented precedence table (the executable grammar here). translate_expr is external (uninterpreted result, "
       "Context state not modelled); sqlparser enums are mechanically generated skeletons; sqlparser's Display is trusted to print trees as written.")
 
@@ -101,7 +101,7 @@ def _c04_split(name):
             or lab in ("SO1.Take.Compute", "SO1.Distinct.Compute", "SO1.DistinctOn.Compute", "SO1.Aggregate.Compute") or lab.endswith(".safety"))
 
 
-prop("C04", ["window_frame", "split_order", "lower_cols", "group_take", "lower_transform", "dialect_flags", "flatten_sort"], select={"flatten_sort": lambda n: n.split(".", 1)[1] in ("FT1", "FT2", "FT3", "FO1", "FO2", "flatten_call_slice.safety"), "dialect_flags": lambda n: n.rsplit(".", 1)[1] == "supports_distinct_on", "split_order": _c04_split, "lower_cols": lambda n: n.split(".", 1)[1] in ("DC5", "DC6") or n.endswith(".safety")},
+prop("C04", ["window_frame", "split_order", "lower_cols", "group_take", "lower_transform", "dialect_flags", "flatten_sort", "range_sugar"], select={"range_sugar": lambda n: n.split(".", 1)[1] in ("ER1", "RR1", "RR2", "RR3", "RT1", "IL1", "IL2", "EN1") or n.split(".", 1)[1] in ("into_int.safety", "into_literal_range.safety", "try_restrict_range.safety", "expands_range.safety"), "flatten_sort": lambda n: n.split(".", 1)[1] in ("FT1", "FT2", "FT3", "FO1", "FO2", "flatten_call_slice.safety"), "dialect_flags": lambda n: n.rsplit(".", 1)[1] == "supports_distinct_on", "split_order": _c04_split, "lower_cols": lambda n: n.split(".", 1)[1] in ("DC5", "DC6") or n.endswith(".safety")},
      not_covered="that the Flattener's log entries are the expressions whose columns end up in the window (the recursion of fold_expr is external; its Sort / Group / Window arms and the call it builds are under contract in flatten_sort / window_frame), row-count preservation, the window of the ROW_NUMBER() column")
 claim("C04",
       "PARTIAL. Proved on the real code, for all inputs: the window transform maps expanding / rolling:n / rows / range to exactly the documented "
@@ -112,7 +112,7 @@ claim("C04",
       "never shares a SELECT with a preceding compute unless it is a HAVING, and reorder() never hoists a windowed compute over a take "
       "(split_order IC1, CM1, SO1c, RO1); an expression that needs a window always becomes a Compute of its own carrying the Lowerer's current window, and an "
       "expression that does not carries none (lower_cols DC5-6); the column that an aggregation or a window function takes as argument may be at most a CASE expression of the same SELECT - a window function or an aggregation has to come from a sub-query (get_requirements' cap, split_order GR1-2); `take a..b` inside a group is DISTINCT / DISTINCT ON only when exactly the first row is kept and "
-      "otherwise a filter on ROW_NUMBER() that holds exactly for positions a..b (group_take DT1-4, RN1). the Lowerer's current window while the columns of a derive / select are declared is exactly the transform call's window - frame kind and lowered bounds, the declared partition columns, the lowered sort - aggregated columns are declared with no window, and no window is left in effect after the transform; `take` gets the call's partition and sort (lower_transform LT1-4, LT9: the whole `match` of lower_pipeline over the transform kinds, with a ghost log of the declarations). NOT proved: how the Flattener fills partition / sort / frame of a call from the enclosing window transform, row-count preservation.",
+      "otherwise a filter on ROW_NUMBER() that holds exactly for positions a..b (group_take DT1-4, RN1). the Lowerer's current window while the columns of a derive / select are declared is exactly the transform call's window - frame kind and lowered bounds, the declared partition columns, the lowered sort - aggregated columns are declared with no window, and no window is left in effect after the transform; `take` gets the call's partition and sort (lower_transform LT1-4, LT9: the whole `match` of lower_pipeline over the transform kinds, with a ghost log of the declarations). the bounds of `rows:a..b` / `range:a..b` reach the frame computation as written: the range tuple is taken apart in order and a bound is open exactly for the null literal, closed exactly for an integer literal (range_sugar RR1-3, IL1-2, whole functions). NOT proved: how the Flattener fills partition / sort / frame of a call from the enclosing window transform, row-count preservation.",
       "Flattener::fold_expr is external (ghost log of (expression, frame in effect)); slices drop the rest of resolve_special_func / "
       "translate_windowed; unpack_as_int_literal and sqlparser value construction are trusted by contract.")
 
@@ -236,7 +236,7 @@ def _safety(name):
 
 
 _ALL_UNITS = ["take_range", "sort_take", "split_order", "window_frame", "dialect_select", "ident_quote", "ids_names", "toposort", "rq_tables",
-              "select_shape", "span_units", "sql_prec", "prql_prec", "literals", "set_ops", "desugar", "resolve_guards", "lex_strings", "limit_clause", "static_eval", "operator_tpl", "rel_names", "lower_cols", "vec_utils", "group_take", "flatten_sort", "star_exclude", "std_arity", "limit_select", "rq_shape", "star_cols", "func_env", "json_lits", "cte_define", "type_meet", "fmt_strings", "concat_ops", "sstring_query", "sstring_cols", "lineage_except", "sort_infer", "setop_pairs", "setops_reach", "tuple_unpack", "resolver_unwraps", "name_lookup", "frame_decls", "select_cols", "lower_transform", "sort_names", "positional_map", "fmt_interp", "datetime_lit", "lex_numbers", "rq_fold", "dialect_flags", "cid_inline", "module_names", "compose_errors", "lex_end_expr", "fmt_names", "header_args", "literal_rows", "tuple_helpers", "pipeline_types", "lower_ident", "sql_templates", "interp_ident", "table_instance", "fmt_width", "span_frame"]
+              "select_shape", "span_units", "sql_prec", "prql_prec", "literals", "set_ops", "desugar", "resolve_guards", "lex_strings", "limit_clause", "static_eval", "operator_tpl", "rel_names", "lower_cols", "vec_utils", "group_take", "flatten_sort", "star_exclude", "std_arity", "limit_select", "rq_shape", "star_cols", "func_env", "json_lits", "cte_define", "type_meet", "fmt_strings", "concat_ops", "sstring_query", "sstring_cols", "lineage_except", "sort_infer", "setop_pairs", "setops_reach", "tuple_unpack", "resolver_unwraps", "name_lookup", "frame_decls", "select_cols", "lower_transform", "sort_names", "positional_map", "fmt_interp", "datetime_lit", "lex_numbers", "rq_fold", "dialect_flags", "cid_inline", "module_names", "compose_errors", "lex_end_expr", "fmt_names", "header_args", "literal_rows", "tuple_helpers", "pipeline_types", "lower_ident", "sql_templates", "interp_ident", "table_instance", "fmt_width", "span_frame", "range_sugar"]
 
 
 def _c12_split_order(n):
